@@ -85,6 +85,20 @@ def points(tier):
         sub = list(dict.fromkeys(sub))
         ax3 = [("order", sub)] + ax[1:]
         its.append(space.deviations(ax3, 3))
+    # the axes that interact at the end of ~A are explored as a full product (for ~A last and ~A in the middle)
+    base = {n: v[0] for n, v in ax}
+
+    def tail_product():
+        for order in ("WCPOXA", "WCPAOX", "WAXCPO"):
+            for bA in ("plain", "trailing_blank", "trailing_comment", "leading_blank"):
+                for dates in (False, True):
+                    for surplus in (False, True):
+                        for rows in (2, 3):
+                            d = dict(base)
+                            d.update({"order": order, "bA": bA, "dates": dates, "surplus": surplus, "rows": rows})
+                            yield d
+
+    its.append(tail_product())
     pts = []
     for pt in space.union_points(*its):
         for eng in ("numpy", "normal"):
